@@ -7,7 +7,7 @@ import IcingaProofs.C20
 
 namespace Icinga.C14
 
-open Icinga.C20 (JValue NumCodec Bytes jsonEncode jsonDecode json_roundtrip)
+open Icinga.C20 (JValue NumCodec Bytes jsonEncode jsonDecode jsonDecodeL json_roundtrip depth jsonMaxNestingDepth)
 
 variable {N : Type}
 
@@ -152,10 +152,11 @@ theorem restoreFields_serialized (known : Key → Bool) (o : SObj N) (fr : Dict 
 theorem restoreMessage_frameBody (c : NumCodec N) (hc : c.Lawful) (known : Key → Bool) (o fresh : SObj N)
     (hnd : (o.fields.map Prod.fst).Nodup)
     (hall : ∀ e ∈ o.fields, e.1 ≠ [] ∧ e.1 ≠ typeKey ∧ onlyKnownTypes known e.2 = true)
-    (hk : fresh.fields.map Prod.fst = o.fields.map Prod.fst) :
+    (hk : fresh.fields.map Prod.fst = o.fields.map Prod.fst)
+    (hd : depth (persistent o) ≤ jsonMaxNestingDepth) :
     restoreMessage c known fresh (frameBody c o) = some { fresh with fields := o.fields } := by
   unfold restoreMessage frameBody
-  rw [json_roundtrip c hc]
+  rw [json_roundtrip c hc _ hd]
   simp only [persistent, serializeObject]
   have hu : dGet? updateKey [(nameKey, JValue.str o.name), (typeKey, JValue.str o.typeName),
         (updateKey, JValue.obj (serializeM o.fields ++ [(typeKey, JValue.str o.typeName)]))]
